@@ -91,6 +91,10 @@ func TestDiff(t *testing.T) {
 				pk.Gate("slot-operand")
 				return
 			}
+			if tr.Feat["hazard:var-operand"] > 0 && pk.GateOpen("tree-var-operand") {
+				pk.Gate("tree-var-operand")
+				return
+			}
 			for k := range tr.Feat {
 				pk.Class("exec:" + k)
 			}
